@@ -21,6 +21,7 @@ import ast
 
 from engine.cfg import call_name, cfg_of
 from engine.errors import AnalysisError
+from engine.flow import Resident
 from engine.repo import walk_no_nested
 from engine.util import calls_in, dotted, local_assignments, unparse, xsrc
 
@@ -357,6 +358,73 @@ def run(ctx):  # noqa: C901, PLR0912, PLR0915
     ctx.ob('C02.R4', '_update_corresponding_state sets DescriptorVersion', n_dv >= 3,
            'every branch of _update_corresponding_state carries the descriptor version into the state', fi=ucs,
            witness=n_dv)
+
+    # ------------------------------------------------------------ R7 where a state's DescriptorVersion comes from
+    ctx.rule('C02.R7', 'a state takes its DescriptorVersion from the MDIB descriptor or from the descriptor of this '
+                       'transaction - never from an object the caller handed in')
+    n_dv = 0
+    for fi in repo.funcs.values():
+        if fi.module.name != TR:
+            continue
+        g7 = cfg_of(fi)
+        la7 = local_assignments(fi.node)
+        res7 = Resident(fi.node)
+        params7 = {a.arg for a in fi.node.args.args}
+
+        def _trusted_descriptor(e, depth=3):
+            """e denotes a descriptor that is current: looked up in the MDIB tables, or the new descriptor of this transaction
+            (an item of descriptor_updates, or the local copy that this function put there)."""
+            if res7.is_resident(e):
+                return True
+            txt = unparse(e)
+            if 'descriptor_updates[' in txt and txt.endswith('.new'):
+                return True
+            if isinstance(e, ast.Name) and depth > 0:
+                vals = la7.get(e.id, [])
+                if e.id in params7 and fi.name.startswith('_'):
+                    return True   # a private helper: its callers are checked (they pass MDIB / transaction descriptors)
+                if vals and all(_trusted_descriptor(v, depth - 1) for v in vals):
+                    return True
+                # the local is put into descriptor_updates as the new descriptor of this transaction
+                for c in calls_in(fi.node, 'TransactionItem'):
+                    if len(c.args) == 2 and unparse(c.args[1]) == e.id:
+                        for st_ in walk_no_nested(fi.node):
+                            if isinstance(st_, ast.Assign) and st_.value is c and 'descriptor_updates[' in unparse(st_.targets[0]):
+                                return True
+            return False
+        for n in g7.real_nodes():
+            if n.kind == 'stmt' and isinstance(n.stmt, ast.Assign) and isinstance(n.stmt.targets[0], ast.Attribute) and \
+                    n.stmt.targets[0].attr == 'DescriptorVersion' and isinstance(n.stmt.value, ast.Attribute) and \
+                    n.stmt.value.attr == 'DescriptorVersion':
+                n_dv += 1
+                owner = n.stmt.targets[0].value
+                src_ = n.stmt.value.value
+                ok = _trusted_descriptor(src_)
+                if not ok and isinstance(src_, ast.Attribute) and src_.attr == 'descriptor_container' and \
+                        unparse(src_.value) == unparse(owner):
+                    # <state>.descriptor_container: must have been set in this function from a trusted descriptor
+                    sets = [m for m in g7.real_nodes() if m.kind == 'stmt' and isinstance(m.stmt, ast.Assign)
+                            and unparse(m.stmt.targets[0]) == unparse(src_) and g7.dominates(m, n)]
+                    ok = bool(sets) and all(_trusted_descriptor(m.stmt.value) for m in sets)
+                ctx.ob('C02.R7', f'{g7.canon_text(n, n.stmt.targets[0])} = {g7.canon_text(n, n.stmt.value)}', ok,
+                       f'{fi.name}: the state gets the DescriptorVersion of the current descriptor' if ok else
+                       f'{fi.name}: {unparse(n.stmt)} takes the version from {unparse(src_)}, an object the caller handed in '
+                       f'(a copy that may be older than the MDIB): after the descriptor was updated in between, the state is '
+                       f'committed with a stale DescriptorVersion', fi=fi, node=n.stmt)
+        # <state>.update_descriptor_version() follows <state>.descriptor_container: that reference must have been set to the
+        # current descriptor in this function before
+        for n, c in g7.nodes_calling('update_descriptor_version'):
+            n_dv += 1
+            owner = unparse(c.func.value)
+            sets = [m for m in g7.real_nodes() if m.kind == 'stmt' and isinstance(m.stmt, ast.Assign)
+                    and unparse(m.stmt.targets[0]) == f'{owner}.descriptor_container' and g7.dominates(m, n)]
+            ok = bool(sets) and all(_trusted_descriptor(m.stmt.value) for m in sets)
+            ctx.ob('C02.R7', f'{g7.canon_text(n, c.func.value)}.update_descriptor_version()', ok,
+                   f'{fi.name}: the state is pointed at the current descriptor before it copies its version' if ok else
+                   f'{fi.name}: {owner}.update_descriptor_version() copies the version of whatever descriptor the state object '
+                   f'still refers to (for a state written through write_entity: the transaction copy, not the MDIB object whose '
+                   f'version was raised again for a new child): the state stays one DescriptorVersion behind', fi=fi, node=c)
+    ctx.floor('C02.R7', n_dv, 6, 'assignments of a state DescriptorVersion in transactions.py')
 
     # ------------------------------------------------------------ R6 no state is (re-)added for a removed descriptor
     ctx.rule('C02.R6', 'states whose descriptor is removed in the same transaction are not added back (no orphan states)')
